@@ -28,7 +28,8 @@ RULE = (
     "ImmutableDictBase/ReadOnlyContainer), row (BaseRow/Row/RowMapping construction, indexing, slicing, attribute/key access, comparison, hashing, "
     "pickling, _mapping, _filter_on_values), proc (processors over valid+malformed ISO strings and every Python value kind), eutil "
     "(_distill_params_20/_distill_raw_params/tuplegetter over every argument shape), anon (anon_map/prefix_anon_map key sequences), result "
-    "(IteratorResult fetch programs through _result_cy) - each executed in the pure build (this process) and in the compiled build (persistent child) "
+    "(IteratorResult fetch programs through _result_cy over source rows delivered as tuple / list / tuple subclass, with and without active result processors; "
+    "the source rows are observed after the program and re-read through a second Result: neither build may write to them) - each executed in the pure build (this process) and in the compiled build (persistent child) "
     "by identical interpreter code; xpickle: Row/RowMapping/list of Row/immutabledict pickled by each build (protocol 2-5) and loaded by the other. Non-trivial: the program contains an op that reaches an explicit cython.compiled branch or a typed-argument "
     "boundary (see _NT_OPS per family); distinct = canonical JSON of the program"
 )
@@ -338,7 +339,12 @@ def _exclude_known(fam, case, ctx):
     the argument."""
     if case.get("pinned"):
         return case
-    if fam == "row" and any(r["dk"] == "mytuple" for r in case["rows"]) or fam == "result" and case["rowkind"] == "mytuple":
+    def _procs_active(c):
+        return bool(c.get("procs")) and any(p_ != "none" for p_ in c["procs"][: len(c["keys"])])
+
+    # (tuple-subclass source rows WITH an active result processor stay in: _apply_processors builds a fresh tuple first, so the known
+    # divergence is not reached and the container-type class {tuple, list, tuple subclass} is covered for the processor path)
+    if fam == "row" and any(r["dk"] == "mytuple" for r in case["rows"]) or fam == "result" and case["rowkind"] == "mytuple" and not _procs_active(case):
         # confirmed divergence C55/row/tuple-subclass-data: the compiled BaseRow rejects tuple-subclass row data (cdef `data: tuple` is an
         # exact-type check) that the pure build accepts.  Trigger replaced by a plain tuple; pinned replay keeps the original.
         case = json.loads(json.dumps(case))
@@ -396,6 +402,15 @@ def _mk_check(fam):
         nontrivial = True if nt_ops is None else any(o in nt_ops for o in ops)
         if any(o.endswith("_b") for o in ops):
             classes.add("typed-boundary")
+        if fam == "result":
+            active = bool(case.get("procs")) and any(p_ != "none" for p_ in case["procs"][: len(case["keys"])]) and bool(case["data"])
+            classes.add(f"rows:{case['rowkind']}" + ("+processors" if active else ""))
+            if active and case["rowkind"] == "list":
+                classes.add("list-rows+processors(source observed)")
+        if fam == "row":
+            for r_ in case["rows"]:
+                if r_.get("procs") and r_["dk"] in ("list", "tuple", "mytuple"):
+                    classes.add(f"rowdata:{r_['dk']}+processors(source observed)")
         ctx.note(case, nontrivial, classes=classes)
         child = _child_for(ctx)
         pure = json.loads(json.dumps(interp.run(fam, case)))
